@@ -52,7 +52,8 @@ class OncePerKey:
         setattr(self._rep, name, value)
 
     def violation(self, key, what, replay_obj):
-        size = len(json.dumps(replay_obj, default=str))
+        # prefer a driver schedule (re-runs the code when replayed) over a recorded history, then the smaller one
+        size = len(json.dumps(replay_obj, default=str)) + (0 if "behaviour" in replay_obj else 10 ** 9)
         cur = self._seen.get(key)
         if cur is None:
             self._seen[key] = [1, size, what, replay_obj]
@@ -96,7 +97,7 @@ def _stratified(behs, k, rng):
 
 def _nontrivial(b):
     sc = b["sc"]
-    if sc["fam"] in ("retry", "hooks"):
+    if sc["fam"] in ("retry", "hooks", "pjoin"):
         return True
     ops = [s["op"] for s in b["steps"]]
     return "release" in ops and len(ops) >= 3
@@ -229,7 +230,7 @@ def run(rep, tier, seed, replay_file=None):
              ("gen:hooks", ("WrappersStep", "Step_hooks.cfg"), dict(workers=1, timeout=900)),
              ("gen:edge", ("WrappersStep", "Step_edge.cfg"), dict(workers=1, timeout=1500)),
              ("gen:sim", ("WrappersStep", "Step_sim_quick.cfg" if quick else "Step_sim.cfg"),
-              dict(workers=1, simulate=dict(num=400 if quick else 4000), depth=12, seed=seed, timeout=1500))]
+              dict(workers=1, simulate=dict(num=400 if quick else 6000), depth=12, seed=seed, timeout=1500))]
     # quick: six single-worker JVMs; thorough: three JVMs with up to 4 workers
     import time
     t0 = time.time()
@@ -248,7 +249,7 @@ def run(rep, tier, seed, replay_file=None):
         return
     gens = {}
     for g, note in (("retry", "every Retry scenario: 3 kinds x n in 0..3 x all 6^4 scripts"),
-                    ("hooks", "every Join/PreHook/PostHook scenario: 17 kinds x part results x context expired on entry"),
+                    ("hooks", "every Join/PreHook/PostHook scenario: 17 kinds x part results x context expired on entry; Producer.Join: all scripts of length <= 2 per producer, successive calls"),
                     ("edge", "one shortest driver schedule per edge of the abstract state graph (Once/Limit/Operation.Limit/Lock/Launch families)"),
                     ("sim", "random driver schedules, 4 callers, all six result classes")):
         r = res["gen:" + g]
@@ -316,7 +317,7 @@ def run(rep, tier, seed, replay_file=None):
                   str([(o.get("n"), o.get("ok"), o.get("key")) for o in got.values()])[:400])
 
     # ---------------------------------------------------------------- 3. code -> model
-    hists = _record(rep, binary, 600 if quick else 6000, seed)
+    hists = _record(rep, binary, 600 if quick else 12000, seed)
     _validate_histories(drep, hists, shards=6)
     drep.flush()
     if hists:
@@ -345,5 +346,5 @@ def run(rep, tier, seed, replay_file=None):
                        "schedule per edge of the abstract state graph (quick: ~3000 of them, stratified over the constructor kinds; thorough: all) "
                        "plus random schedules with 4 callers; each step is followed by rt.Quiesce and the observations (executions entered, max "
                        "concurrency, who returned with which execution's result, waiters still blocked) are compared with the spec's; non-trivial = "
-                       "a schedule with a release and >= 3 steps, or any Retry/Hooks scenario; histories = un-stepped concurrent runs (2-5 "
+                       "a schedule with a release and >= 3 steps, or any Retry/Join/PreHook/PostHook scenario; histories = un-stepped concurrent runs (2-5 "
                        "goroutines, random kind/n/script) validated by WrappersTrace")
